@@ -200,11 +200,15 @@ func checkC11(c *Check) {
 						}
 					}
 					w.OnReturn = func(w *walker, st *wstate, ret *ssa.Return, rs []*absVal) {
+						if _, passed := st.vals[sel]; !passed {
+							return // a return before the started state was reached (handler merged into the launch handler)
+						}
 						rets++
 						if !st.noted("killed-all") {
 							bad++
 						}
 					}
+					w.MemoStates = true
 					w.Run()
 					ok = rets > 0 && bad == 0 && !w.Truncated
 				}
